@@ -11,7 +11,7 @@ from readers import gaf_record, read_text, run_cli, write_text
 EXTRA = ["tp:A:P", "NM:i:3", "zd:Z:abc"]
 
 
-def segs_of(ref, hap):
+def segs_of(ref, hap, base=10):
     segs = {}
     so = 0
     k = 0
@@ -19,7 +19,7 @@ def segs_of(ref, hap):
         k += 1
         segs[f"s{k}"] = {"sn": "chr1", "so": so, "ln": l, "sr": 0}
         so += l
-    pos = 10
+    pos = base
     for g, l in hap:
         k += 1
         pos += g
